@@ -206,7 +206,8 @@ def run_evaluate(kc: KernelCase, DIM, joint, opts, stats, refcache):
     """Run the evaluate kernel on one joint structure; returns (findings, info)."""
     out = []
     vals, env = make_env(joint)
-    m = Machine(generic=True, budget=step_budget(DIM, joint), lenient_uninit=True, lenient_overflow=True)
+    m = Machine(generic=True, budget=step_budget(DIM, joint), lenient_uninit=True, lenient_overflow=True,
+                lenient_redeclare=True)
     fn = kc.fns["evaluate"]
     args, ts_out, odims = kc.build_args(m, fn, DIM, joint, vals)
     case = None
@@ -234,6 +235,12 @@ def run_evaluate(kc: KernelCase, DIM, joint, opts, stats, refcache):
     for ek, em in m.events:
         if ek in ("int-overflow", "int-literal-range"):
             out.append(finding(["C05"], "fault", f"evaluate kernel: {em}", cj(), fault=ek, kernel="evaluate"))
+            break
+    for ek, em in m.events:
+        if ek == "redeclared":
+            out.append(finding(["C05", "C06", "C08"], "fault", f"evaluate kernel: variable {em} is declared twice in one "
+                               "scope (not valid C; the LLVM back end gives both one slot)", cj(),
+                               fault="redeclared", kernel="evaluate"))
             break
     for ek, em in m.events:
         if ek == "shadow-divergence":
@@ -325,6 +332,8 @@ def run_assemble_compute(kc: KernelCase, DIM, joint, opts, stats, einfo):
     structural = [p for p in problems_a if "vals uninitialised" not in p]
     if structural:
         props = ["C04", "C02"]
+        if any(("NULL" in p or "freed" in p or "entries" in p or "uninitialised" in p) for p in structural):
+            props.append("C05")  # same rule as for evaluate: the arrays handed back do not cover the structure
         out.append(finding(props, "malformed", f"assemble output structure is not well-formed: {structural[:3]}",
                            cj(problems=structural), kernel="assemble", clause=_clause(structural[0])))
     am_freeze_structure(ts_out, kc.ofmt)
